@@ -30,6 +30,9 @@ pub struct BuildOutcome {
     pub global_errors: Vec<String>,
     pub dir: PathBuf,
     pub wall_s: f64,
+    /// cargo's dep-info of the built binary (`<exe>.d`): every file the crate's compilation read,
+    /// `include_str!`-ed files included — what cargo watches to decide about a rebuild
+    pub dep_info: Option<String>,
 }
 
 fn consumers_root() -> PathBuf {
@@ -283,6 +286,7 @@ fn build_consumer_inner(name: &str, cases: &[CaseCode], with_serde_dep: bool, ex
     }
     // keep a private copy of the executable: the shared target dir is overwritten by the next batch
     if let Some(exe) = &out.exe {
+        out.dep_info = std::fs::read_to_string(exe.with_extension("d")).ok();
         let keep = dir.join("consumer-bin");
         if std::fs::copy(exe, &keep).is_ok() {
             out.exe = Some(keep);
